@@ -71,6 +71,11 @@ func ProcessPutPostSingleDocRequest(ctx *fasthttp.RequestCtx, updateArg bool, my
 		utils.SetBadMsg(ctx, "")
 		return
 	}
+	if request == nil {
+		log.Errorf("ProcessPutPostSingleDocRequest: the document is not a JSON object")
+		utils.SetBadMsg(ctx, "")
+		return
+	}
 
 	if indexNameIn == "" {
 		log.Error("ProcessPutPostSingleDocRequest: error processing request: IndexName is a required parameter.")
